@@ -624,11 +624,14 @@ def r15_line_end_is_followed_by_blank_skipping(ctx, rule="C09.R15"):
                             acc["tt"].add(r["variant"])
                         if (r.get("adt") or "").endswith("::MatchMode") and r.get("variant") == "Exclude":
                             acc["exclude"] = True
-        for _b, t in f.body.calls():
-            c = mir.callee_of(t)
-            nm = (t.get("cpath") or "").split("::")[-1]
+        # callees and functions handed over by name (`.and_then(helper)`)
+        for c in prog.call_edges(f):
             if c in prog.fns and prog.fns[c].crate == "rusty_parser":
-                acc["calls"].add((prog.enclosing_fn(prog.fns[c]) or prog.fns[c]).id)
+                ci = (prog.enclosing_fn(prog.fns[c]) or prog.fns[c]).id
+                if ci != o.id:
+                    acc["calls"].add(ci)
+        for _b, t in f.body.calls():
+            nm = (t.get("cpath") or "").split("::")[-1]
             if nm in ("peek", "peek_token"):
                 acc["peek"] = True
             if nm in ("many_allow_none", "zero_or_more", "many", "one_or_more"):
@@ -640,6 +643,15 @@ def r15_line_end_is_followed_by_blank_skipping(ctx, rule="C09.R15"):
     for i, a in owners.items():
         for c in a["calls"]:
             callers.setdefault(c, set()).add(i)
+    # a helper used only by look-ahead parsers (the decision of a peek moved into a named function)
+    # looks ahead as well
+    changed = True
+    while changed:
+        changed = False
+        for i, a in owners.items():
+            cs = [c for c in callers.get(i, ()) if c in owners]
+            if not a["peek"] and cs and all(owners[c]["peek"] for c in cs):
+                a["peek"] = changed = True
     n = 0
     for i, a in sorted(owners.items()):
         if "Eol" not in a["tt"] or a["exclude"] or a["peek"] or i in skippers or "::tokens::" in i:
